@@ -491,9 +491,9 @@ theorem tail_true (x y : Location) (hx : WF x) (hy : WF y) (ms : Bool)
     simp only [hca, hcb]
     rfl
 
-theorem contains_nonstrict (a b : PLoc) (ha : WFP a) (hb : WFP b) (ms fs : Bool) (hq : ¬ EmptyArgQuirk a b ms) :
+theorem contains_nonstrict (a b : PLoc) (ha : WFP a) (hb : WFP b) (ms fs : Bool) :
     okContains a b ms fs false (ans (containsP a b ms fs false)) = true := by
-  have hov := hasOverlapP_eq a b ha hb ms fs hq
+  have hov := hasOverlapP_eq a b ha hb ms fs
   rw [containsP_false a b ms fs _ hov]
   cases he : expectOverlap a b ms fs with
   | false =>
@@ -561,10 +561,10 @@ open BioCantor BioCantor.Spec BioCantor.Model
 
 /-- C02-T5: for operands that are not self-overlapping (always for the span variant) `contains` ⇔ b has a position and every position of b
     is one of a (spans with `full_span`), gated by strand / parents -/
-theorem containsP_ok (a b : PLoc) (ha : WFP a) (hb : WFP b) (ms fs strict : Bool) (hq : ¬ EmptyArgQuirk a b ms) :
+theorem containsP_ok (a b : PLoc) (ha : WFP a) (hb : WFP b) (ms fs strict : Bool) :
     okContains a b ms fs strict (ans (containsP a b ms fs strict)) = true := by
   cases strict with
-  | false => exact Contains.contains_nonstrict a b ha hb ms fs hq
+  | false => exact Contains.contains_nonstrict a b ha hb ms fs
   | true =>
     cases hsp : sameParent a.2 b.2 with
     | false =>
@@ -575,15 +575,13 @@ theorem containsP_ok (a b : PLoc) (ha : WFP a) (hb : WFP b) (ms fs strict : Bool
         simp [containsP, requireParentsEq_eq, hsp]
         rfl
       rw [this]
-      have := Contains.contains_nonstrict a b ha hb ms fs hq
+      have := Contains.contains_nonstrict a b ha hb ms fs
       simpa [okContains, hsp] using this
 
 /-- the hypotheses of `containsP_ok` hold for concrete non-trivial inputs (here: `contains` is `True`) -/
 example :
     WFP ((.compound ⟨[(0, 3), (5, 9), (12, 14)], .plus⟩), [(some "chrA", none, some (List.replicate 20 'A'))]) ∧
-    WFP ((.compound ⟨[(1, 3), (5, 7)], .plus⟩), [(some "chrA", none, some (List.replicate 20 'A'))]) ∧
-    ¬ EmptyArgQuirk ((.compound ⟨[(0, 3), (5, 9), (12, 14)], .plus⟩), [(some "chrA", none, some (List.replicate 20 'A'))])
-        ((.compound ⟨[(1, 3), (5, 7)], .plus⟩), [(some "chrA", none, some (List.replicate 20 'A'))]) true := by
-  refine ⟨by decide, by decide, by decide⟩
+    WFP ((.compound ⟨[(1, 3), (5, 7)], .plus⟩), [(some "chrA", none, some (List.replicate 20 'A'))]) := by
+  refine ⟨by decide, by decide⟩
 
 end BioCantor.Proofs
